@@ -689,7 +689,7 @@ def gen_getline_lines(ctx):
     # degenerate shapes
     for fl in (0, 5, 7):
         add(fl, [])
-        add(fl, [(B, 0x0a)])
+        add(fl, [(150, 0x0a), (B - 300, 0x20), (150, 0x0a)])       # (the list-based model pays O(B) per line: few lines)
         add(fl, [(B + 1, 0x20)])
         add(fl, [(B, 0x61)])
         add(fl, [(B - 1, 0x61), b"\n"])
